@@ -325,7 +325,10 @@ func findResultKeys(r resultList) ([]key, error) {
 		case resultSingle:
 			keys = append(keys, key{t: innerResult.Type, name: innerResult.Name})
 		case resultGrouped:
-			if innerResult.Type.Kind() != reflect.Slice {
+			// A decorator returns the whole group as one slice: a flatten
+			// result (whose Type is the element type of the declared slice,
+			// possibly itself a slice) is a collection of single values.
+			if innerResult.Flatten || innerResult.Type.Kind() != reflect.Slice {
 				return nil, newErrInvalidInput("decorating a value group requires decorating the entire value group, not a single value", nil)
 			}
 			keys = append(keys, key{t: innerResult.Type.Elem(), group: innerResult.Group})
